@@ -532,6 +532,10 @@ func genNode(t *rapid.T, depth int, ctr *int, allowInclude bool, encl []string) 
 		n.Iter = rapid.SampledFrom([]string{"range", "beginend"}).Draw(t, "iterKind")
 		n.IterN = rapid.IntRange(0, 4).Draw(t, "iterN")
 		n.IterVar = fmt.Sprintf("it%d", depth)
+		if len(encl) > 0 && rapid.IntRange(0, 2).Draw(t, "shadows") == 0 {
+			// the same variable name as an enclosing iterator (the ubiquitous "it"): the nearest binding wins below
+			n.IterVar = rapid.SampledFrom(encl).Draw(t, "shadowed")
+		}
 		if len(encl) > 0 && rapid.IntRange(0, 1).Draw(t, "dependent") == 0 {
 			n.DepVar = rapid.SampledFrom(encl).Draw(t, "depVar")
 		}
@@ -647,6 +651,10 @@ func TestLoadFixed(t *testing.T) {
 	dep := []*N{{Kind: "agg", Base: "det", Iter: "range", IterN: 3, IterVar: "it3", Children: []*N{
 		{Kind: "task", Base: "r1", Iter: "beginend", IterVar: "it2", DepVar: "it3", VarRef: "it3"},
 		{Kind: "agg", Base: "r2", Iter: "range", IterVar: "it2", DepVar: "it3", Children: []*N{{Kind: "task", Base: "r3", VarRef: "it2"}, {Kind: "call", Base: "r4", Iter: "range", IterVar: "it1", DepVar: "it2"}}}}}}
+	shadow := []*N{{Kind: "agg", Base: "det", Iter: "range", IterN: 2, IterVar: "it", Children: []*N{
+		{Kind: "agg", Base: "flp", Iter: "beginend", IterN: 2, IterVar: "it", Children: []*N{{Kind: "task", Base: "readout", VarRef: "it"}, {Kind: "call", Base: "mon", Iter: "range", IterN: 2, IterVar: "it"}}},
+		{Kind: "task", Base: "outer", VarRef: "it"}}}}
+	vh.Fixed(t, prop, "nested-iterators-sharing-one-variable-name", Case{Root: shadow, Included: []*N{leafN("inc", "")}}, vh.Confirmed(run))
 	vh.Fixed(t, prop, "inner-range-depends-on-outer-variable", Case{Root: dep, Included: []*N{leafN("inc", "")}}, vh.Confirmed(run))
 	bad := []*N{{Kind: "agg", Base: "a", Children: []*N{leafN("ok", ""), {Kind: "agg", Base: "b", Children: []*N{{Kind: "task", Base: "bad", Err: "name"}, leafN("ok2", "")}}}}, leafN("ok3", "")}
 	vh.Fixed(t, prop, "iterator-with-enabled-expression", Case{Root: []*N{{Kind: "task", Base: "e", Enabled: "{{ fa }}", Iter: "range", IterN: 2, IterVar: "it3"}, leafN("k", "")}, Included: []*N{leafN("inc", "")}}, vh.Confirmed(run))
